@@ -70,15 +70,13 @@ func StrictValiditySignatureCheck(atTs, validUntil spec.Timestamp) bool {
 	// Servers MUST use the lesser of valid_until_ts and 7 days into the
 	// future when determining if a key is valid.
 	// https://matrix.org/docs/spec/rooms/v5#signing-key-validity-period
-	sevenDaysFuture := time.Now().Add(time.Hour * 24 * 7)
-	validUntilTS := validUntil.Time()
-	if validUntilTS.After(sevenDaysFuture) {
-		validUntilTS = sevenDaysFuture
+	// (Compared as timestamps: they are unsigned, and a conversion to time.Time
+	// wraps values of 2^63 ms and more into the distant past.)
+	sevenDaysFuture := spec.AsTimestamp(time.Now().Add(time.Hour * 24 * 7))
+	if validUntil > sevenDaysFuture {
+		validUntil = sevenDaysFuture
 	}
-	if atTs.Time().After(validUntilTS) {
-		return false
-	}
-	return true
+	return atTs <= validUntil
 }
 
 // NoStrictValidityCheck doesn't perform any validation of potentially expired signing keys.
